@@ -477,6 +477,8 @@ pub fn run(o: &Opts) -> i32 {
                 gen.push(DefEntry { name: "yttrum".into(), doc: None, category: None, def: Rc::new(Def::Substance { symbol: Some("Yq".into()), properties: vec![mkprop("molar_mass", "amount", "1 mol", "mass", "7 kg")] }) });
                 gen.push(unit("aaformula", "Zq2Yq")); gen.push(unit("zzformula", "Zq3")); gen.push(unit("aaelement", "3 Yq"));
             }
+            // a unit and a prefix of one name, and a prefix alias that refers to the prefix
+            gen.push(unit("twin", "3 m")); gen.push(mkp("twin", "1000", false)); gen.push(mkp("tw", "twin", false)); gen.push(unit("abtwin", "2 twm")); gen.push(unit("zztwin", "2 twinm + 1 twin"));
             // an identifier in an exponent, defined under a name that sorts after its user
             gen.push(unit("aexp", "2^zzexp m")); gen.push(unit("zzexp", "3")); gen.push(unit("aexp2", "(3 m)^(zzexp - 1)"));
             // a name that is both prefix + unit and the plural of another unit (`ks` = k + s, not the plural of the unit k)
